@@ -672,5 +672,38 @@ example : NameOK (lit "order items") ∧ ColsOK [(lit "id", lit "int"), (lit "un
     simp at hp
     rcases hp with rfl | rfl <;> refine ⟨fun c hc => ?_, by decide, by decide⟩ <;> (revert c; decide)
 
+/-! ### spellings of an identifier -/
+
+/-- `nm` is a spelling of the identifier `tn`: followed by a blank, the name rule reads `tn` from it -/
+def Spells (nm tn : Str) : Prop :=
+  (∀ c ∈ nm, c ≠ '\t') ∧ (∃ x xr, nm = x :: xr ∧ isWs x = false ∧ x ≠ '\n' ∧ x ≠ '/') ∧
+    ∀ (c1 : Cur) (r : Str), (skipWs c1).rest = nm ++ ' ' :: r → c1.pastEnd = false →
+      ∃ c2, name c1 = .ok tn c2 ∧ c2.rest = ' ' :: r ∧ c2.pastEnd = false
+
+/-- the identifier in double quotes (the renderer's spelling) -/
+theorem spells_quoted (tn : Str) (h : NameOK tn) : Spells ('"' :: (tn ++ ['"'])) tn := by
+  refine ⟨?_, ⟨'"', tn ++ ['"'], rfl, by decide, by decide, by decide⟩, ?_⟩
+  · intro c hc
+    simp only [List.mem_cons, List.mem_append, List.mem_nil_iff, or_false] at hc
+    rcases hc with rfl | hc | rfl
+    · decide
+    · exact (h c hc).2.2.2
+    · decide
+  · intro c1 r hr hp
+    exact name_quoted_ok c1 tn (' ' :: r) (by rw [hr]; simp) h hp
+
+/-- the identifier written bare: possible when it consists of name characters only -/
+theorem spells_bare (tn : Str) (hne : tn ≠ []) (hall : tn.all isNameChar = true) : Spells tn tn := by
+  obtain ⟨x, xr, rfl⟩ : ∃ x xr, tn = x :: xr := by
+    cases tn with
+    | nil => exact absurd rfl hne
+    | cons a as => exact ⟨a, as, rfl⟩
+  have hx : isNameChar x = true := by simp only [List.all_cons, Bool.and_eq_true] at hall; exact hall.1
+  refine ⟨?_, ⟨x, xr, rfl, (nameChar_facts x hx).1, (nameChar_facts x hx).2.1, (nameChar_facts x hx).2.2⟩, ?_⟩
+  · intro c hc
+    exact nameChar_not_tab c (by simp only [List.all_eq_true] at hall; exact hall c hc)
+  · intro c1 r hr hp
+    exact name_ok c1 (x :: xr) (' ' :: r) hr (by simp) hall (by intro y hy; simp at hy; subst hy; decide) hp
+
 end C02
 end PyDBML
